@@ -153,6 +153,56 @@ def oracle_wf(c):
     return None
 
 
+def encoder_stage(ctx, wf):
+    """ties the specification-side encoders of the round-trip theorems (coq/Sii/Encode.v,
+    EncodeGeneral.v) to the images the harness builds: the string table, the General category (the
+    bytes the implementation reads) and every sync manager item of each generated device are what
+    the Coq encoders produce from the device description"""
+    strs, gens, sms = [], [], []
+    for c in wf[:200]:
+        img = bytes.fromhex(c["img"])
+        d = c["desc"]
+        pos = 128
+        for ty, words in d["order"]:
+            body = img[pos + 4: pos + 4 + 2 * words]
+            pos += 4 + 2 * words
+            if ty == 10:
+                ss = [bytes.fromhex(x) for x in d["strings"]]
+                n = 1 + sum(1 + len(x) for x in ss)
+                strs.append("(%s, %s%%Z)" % ("[" + "; ".join(vlib.gz(list(x)) for x in ss) + "]", vlib.gz(list(body[:n]))))
+            elif ty == 30 and d["general"]:
+                g = d["general"]
+                v = "{| gv_group := %d; gv_img := %d; gv_order := %d; gv_name := %d; gv_coe := %d; gv_foe := %s; gv_eoe := %s; gv_flags := %d; gv_ebus := (%d)%%Z; gv_p0 := %d; gv_p1 := %d; gv_p2 := %d; gv_p3 := %d; gv_pma := %d |}" % (
+                    g[0], g[1], g[2], g[3], g[4], "true" if g[5] else "false", "true" if g[6] else "false", g[7], g[8], g[9][0], g[9][1], g[9][2], g[9][3], g[10])
+                sel = [0, 1, 2, 3, 5, 11, 12, 13, 14, 15, 16, 17]
+                gens.append("(%s, %s%%Z)" % (v, vlib.gz([body[k] for k in sel])))
+            elif ty == 41:
+                for k, sm in enumerate(d["sms"]):
+                    it = body[8 * k: 8 * k + 8]
+                    v = "{| v_start := %d; v_len := %d; v_om := %d; v_dir := %d; v_b4 := %s; v_b5 := %s; v_b6 := %s; v_status := %d; v_en := %d; v_ut := %d |}" % (
+                        sm[0], sm[1], sm[2], sm[3], "true" if sm[4] else "false", "true" if sm[5] else "false", "true" if sm[6] else "false", it[5], sm[7], sm[8])
+                    sms.append("(%s, %s%%Z)" % (v, vlib.gz(list(it))))
+    txt = "\n".join(["From EC Require Import Base.Prelude Base.Bytes Sii.Encode Sii.EncodeGeneral Wire.Check.", "Local Open Scope N_scope.",
+                     "Definition sel (l : list N) : list Z := map (fun k => Z.of_N (nth k l 0)) [0; 1; 2; 3; 5; 11; 12; 13; 14; 15; 16; 17]%nat.",
+                     "Definition cs : list (list (list N) * list Z) := [" + ";\n".join(strs) + "].",
+                     "Eval vm_compute in (0, map fst (mismatches (fun ss => map Z.of_N (strings_encode ss)) cs 0)).",
+                     "Definition cg : list (genv * list Z) := [" + ";\n".join(gens) + "].",
+                     "Eval vm_compute in (1, map fst (mismatches (fun v => sel (general_encode v)) cg 0)).",
+                     "Definition cm : list (smv * list Z) := [" + ";\n".join(sms) + "].",
+                     "Eval vm_compute in (2, map fst (mismatches (fun v => map Z.of_N (sm_encode v)) cm 0)).", ""])
+    (rc, out), = vlib.coq_eval_shards(ctx.pid + "enc", [txt])
+    v = vlib.parse_evals(out) if rc == 0 else []
+    names = ["string table", "General category", "sync manager item"]
+    if rc != 0 or len(v) < 3:
+        ctx.violation("encoder comparison could not be evaluated: " + out[-300:], {"broken": "correspondence", "log": out[-2000:]}, no_input=True)
+    else:
+        for k, val in enumerate(v):
+            if not val.endswith(", [])"):
+                ctx.violation("the %s of a generated image is not what the Coq encoder of the round-trip theorem produces from its description: %s" % (names[k], val[:200]),
+                              {"broken": "correspondence", "model": "coq/Sii/Encode.v, EncodeGeneral.v", "mismatches": val[:1000]}, no_input=True)
+    return {"string_tables": len(strs), "general_categories": len(gens), "sync_manager_items": len(sms)}
+
+
 def run(ctx, replay=None):
     quick = ctx.tier == "quick"
     vlib.proof_stage(ctx, "Props/C12.v")
@@ -188,6 +238,7 @@ def run(ctx, replay=None):
             if r:
                 ctx.classify(r[0], "C12 oracle: " + r[1], r[2])
     dis = S.compare_with_model(ctx, cases, "c12")
+    stats["encoders_vs_images"] = encoder_stage(ctx, [c for c in cases if c["kind"] == "wf"])
     ctx.coverage.update(evaluations=nq + stats["range_seqs"], distinct_nontrivial=len({json.dumps([c.get("img"), c.get("ops"), c.get("start")]) for c in cases}),
                         rule="well-formed devices generated from random descriptions (0..50 strings of 0..255 bytes with NULs and non-ASCII, 0..8 sync managers, 0..16 FMMUs and mappings, 0..64 PDOs per direction with 0..255 entries, optional/unknown categories in random order, sizes 1 Kbit..4 Mbit) with every query incl. string indices 0, 1, n, n+1, n+2, 255; range cases: public-API shaped reads of 0..600 bytes (odd and even) at any word, and op sequences (read/read_exact/read_byte/skip) with boundary starts and lengths; 4 and 8 byte providers",
                         disagreements=dis, **stats, samples=[{"kind": cases[0]["kind"], "order": cases[0].get("desc", {}).get("order")}])
